@@ -30,13 +30,13 @@ def _write_cfg(ctx, name, consts, tail):
 
 
 def _consts(nids=3, naddrs=3, filt=(), defect=True, maxlen=2, bad=False, dup=False, depth=2, sim=False, mixed=True,
-            burst=0, ordered=True):
+            burst=0, ordered=True, split=False, c0peer="a0", late=False):
+    b = lambda x: "TRUE" if x else "FALSE"
     return collections.OrderedDict(
         Ids=_tla_set("i%d" % k for k in range(1, nids + 1)), Addrs=_tla_set("a%d" % k for k in range(1, naddrs + 1)),
-        Filt=_tla_set(filt), DefectByAddr="TRUE" if defect else "FALSE", MaxLen=maxlen,
-        WithBad="TRUE" if bad else "FALSE", WithDup="TRUE" if dup else "FALSE", GenDepth=depth,
-        Sim="TRUE" if sim else "FALSE", Mixed="TRUE" if mixed else "FALSE", Burst=burst,
-        Ordered="TRUE" if ordered else "FALSE")
+        Filt=_tla_set(filt), DefectByAddr=b(defect), C0peer='"%s"' % c0peer, MaxLen=maxlen,
+        WithBad=b(bad), WithDup=b(dup), WithSplit=b(split), LateEvents=b(late), GenDepth=depth,
+        Sim=b(sim), Mixed=b(mixed), Burst=burst, Ordered=b(ordered))
 
 
 def _gen(ctx, cfgname, consts, simulate=None, depth=None, timeout=600, workers=1, seed=None):
@@ -66,8 +66,8 @@ def _thin(hists, per_prefix, rnd):
     return out
 
 
-def _scenarios(hists, first, mode="direct", nids=3, naddrs=3, filt=(), src=""):
-    return [dict(n=first + k, mode=mode, nids=nids, naddrs=naddrs, filt=list(filt), init=[], exp0=h["exp0"],
+def _scenarios(hists, first, mode="direct", nids=3, naddrs=3, filt=(), src="", c0peer="a0"):
+    return [dict(n=first + k, mode=mode, nids=nids, naddrs=naddrs, filt=list(filt), c0peer=c0peer, init=[], exp0=h["exp0"],
                  steps=h["steps"], src=src) for k, h in enumerate(hists)]
 
 
@@ -85,7 +85,8 @@ def _replay(ctx, binary, scs, name, par=32, timeout=900):
 
 def _sig(sc):
     def rows(rs):
-        return ",".join("%s@%s%s" % (r["id"], r["addr"], "" if r["inv"] == "ok" else ":" + r["inv"]) for r in rs)
+        return ",".join("%s@%s%s%s" % (r["id"], r["addr"], "/" + r["peer"] if r.get("peer", r["addr"]) != r["addr"] else "",
+                                       "" if r["inv"] == "ok" else ":" + r["inv"]) for r in rs)
     return " ; ".join("%s[%s]%s%s%s" % (s["op"], rows(s["rows"]), "" if s["fail"] == "none" else " fail=" + s["fail"],
                                          " " + ",".join(e["kind"] + ":" + e["addr"] for e in s["evs"][:6]) +
                                          ("..(%d)" % len(s["evs"]) if len(s["evs"]) > 6 else "") if s["evs"] else "",
@@ -94,7 +95,7 @@ def _sig(sc):
 
 def _state(r):
     return "hosts=%s byaddr=%s pool=%s policy=%s served=%s refreshes=%d%s" % (
-        ["%s@%s%s" % (h["id"], h["addr"], "" if h["up"] else "(down)") for h in r["hosts"]],
+        ["%s@%s%s%s" % (h["id"], h["addr"], "/" + h["n2n"] if h["n2n"] != h["addr"] else "", "" if h["up"] else "(down)") for h in r["hosts"]],
         ["%s>%s" % (h["addr"], h["id"]) for h in r["byaddr"]], [h["id"] for h in r["pool"]],
         ["%s@%s" % (h["id"], h["addr"]) for h in r["pol"]], r["served"], r["refreshes"],
         " err=" + r["err"] if r["err"] else "")
@@ -104,8 +105,8 @@ def _probe(ctx, binary):
     """Which variant of the driver model predicts this tree: does removing a host delete an
     address entry that names another host?  (Only selects the prediction used for waiting and
     for the drift comparison; the property operator does not depend on it.)"""
-    row = lambda i, a: dict(id=i, addr=a, inv="ok")
-    sc = dict(n=0, mode="direct", nids=3, naddrs=3, filt=[], init=[row("i1", "a1")],
+    row = lambda i, a: dict(id=i, addr=a, peer=a, inv="ok")
+    sc = dict(n=0, mode="direct", nids=3, naddrs=3, filt=[], c0peer="a0", init=[row("i1", "a1")],
               steps=[dict(op="refresh", rows=[row("i2", "a1")], fail="none", evs=[], addr="")], src="probe")
     rc, out, summ, tp = _replay(ctx, binary, [sc], "probe", par=1, timeout=120)
     if not summ or summ["Errors"]:
@@ -134,15 +135,24 @@ def _validate(ctx, recs, defect, shards):
             len(stalled), len(by) + len(stalled)))
     for v in by.values():
         v.sort(key=lambda r: r["k"])
-    keys = list(by.keys())
-    parts = [keys[i::shards] for i in range(shards)]
-    cfg = "Trace_Cluster.cfg" if defect else "Trace_Cluster_fixed.cfg"
+    # one TLC run per shard; the control node's node-to-node address is a constant of the run
+    groups = collections.OrderedDict()
+    for k, v in by.items():
+        groups.setdefault(v[0].get("c0peer") or "a0", []).append(k)
+    parts = []
+    for c0, keys in groups.items():
+        n = max(1, min(shards, len(keys) // 200 + 1))
+        parts += [(c0, keys[i::n]) for i in range(n)]
 
     def one(i):
-        if not parts[i]:
+        c0, keys = parts[i]
+        if not keys:
             return None
+        cfg = _write_cfg(ctx, "trace_%d.cfg" % i, collections.OrderedDict(
+            Ids=_tla_set("i%d" % k for k in range(1, 5)), Addrs=_tla_set("a%d" % k for k in range(1, 5)), Filt="{}",
+            DefectByAddr="TRUE" if defect else "FALSE", C0peer='"%s"' % c0), ["INVARIANT Report", "CHECK_DEADLOCK FALSE"])
         p = os.path.join(ctx.tmp, "val_%d.ndjson" % i)
-        rs = [r for k in parts[i] for r in by[k]]
+        rs = [r for k in keys for r in by[k]]
         vf.write_ndjson(p, rs)
         r = vf.run_tlc(ctx, "Trace_Cluster", cfg, workers=1, heap="2g", timeout=1200, env={"VF_TRACE": p},
                        deadlock=False, name="val_%d" % i, quiet=True)
@@ -150,7 +160,7 @@ def _validate(ctx, recs, defect, shards):
 
     viol, drift, skipped, lines = [], [], 0, 0
     with cf.ThreadPoolExecutor(shards) as ex:
-        for res in ex.map(one, range(shards)):
+        for res in ex.map(one, range(len(parts))):
             if res is None:
                 continue
             r, n = res
